@@ -1,6 +1,7 @@
 package mobius
 
 import (
+	"errors"
 	"fmt"
 	"github.com/jhalter/mobius/hotline"
 	"github.com/stretchr/testify/mock"
@@ -84,6 +85,17 @@ func NewYAMLAccountManager(accountDir string) (*YAMLAccountManager, error) {
 
 		if err := yaml.Unmarshal(fileContents, &account); err != nil {
 			return nil, fmt.Errorf("unmarshal: %v", err)
+		}
+
+		// An account file whose name does not match the login inside it is what a rename interrupted between the file
+		// rename and the rewrite leaves behind.  Give it back its own name: otherwise the next update of the account
+		// writes a second file and this stale one can win on the following start.
+		if want := filepath.Join(accountDir, path.Join("/", account.Login)+".yaml"); want != filePath {
+			if _, err := os.Stat(want); errors.Is(err, os.ErrNotExist) {
+				if err := os.Rename(filePath, want); err != nil {
+					return nil, fmt.Errorf("restore account file name: %v", err)
+				}
+			}
 		}
 
 		// Check the account file contents for a field name that only appears in the new AccessBitmap flag format.
